@@ -21,7 +21,8 @@ var c06Cfg = kit.WorldCfg{
 		{Name: "holders", RefTo: "things", RefWiring: kit.WireFkIndexNullable}, // restrict
 		{Name: "owned", RefTo: "targets", RefWiring: kit.WireFkIndexCascade},   // deleted together with their target
 	},
-	Children: []kit.ChildCfg{{Name: "kids", Parent: "things", UniqueExtra: true}}, // the child store has a unique index of its own
+	// two child types over things: "kids0" is registered first; "kids" has a unique index and a link collection of its own
+	Children: []kit.ChildCfg{{Name: "kids0", Parent: "things"}, {Name: "kids", Parent: "things", UniqueExtra: true}},
 	Links: []kit.LinkCfg{
 		{A: "things", FieldA: "tlinks", B: "targets", FieldB: "plinks"},
 		{A: "things", FieldA: "rct", B: "targets", FieldB: "rcp", RefCounted: true},
@@ -30,9 +31,11 @@ var c06Cfg = kit.WorldCfg{
 }
 
 var c06IDs = map[string][]string{
-	"things":  {"id-th1", "id-th2", "id-th3"},
-	"kids":    {"id-th1", "id-th2", "id-th3"},
-	"targets": {"id-tg1", "id-tg2", "id-tg3"},
+	// some ids are proper prefixes of others (id-th1 / id-th10): lookups have to match whole ids
+	"things":  {"id-th1", "id-th10", "id-th3"},
+	"kids":    {"id-th1", "id-th10", "id-th3"},
+	"kids0":   {"id-th1", "id-th10", "id-th3"},
+	"targets": {"id-tg1", "id-tg10", "id-tg3"},
 	"deps":    {"id-dp1", "id-dp2", "id-dp3", "id-dp4"},
 	"holders": {"id-ho1", "id-ho2"},
 	"owned":   {"id-ow1", "id-ow2", "id-ow3", "id-ow4"},
@@ -107,19 +110,19 @@ func genC06(t *rapid.T) c06Case {
 				op.Kind = []string{"rcinc", "rcinc", "rcdec", "rcset"}[rapid.IntRange(0, 3).Draw(t, l+"_rck")]
 				op.Count = rapid.IntRange(0, 2).Draw(t, l+"_cnt")
 			} else {
-				op.Kind = []string{"addlinks", "addlinks", "removelinks", "setlinks"}[rapid.IntRange(0, 3).Draw(t, l+"_lk")]
-				if rapid.Bool().Draw(t, l+"_two") {
+				op.Kind = []string{"addlinks", "addlinks", "removelinks", "setlinks", "addlink", "addlink", "removelink"}[rapid.IntRange(0, 6).Draw(t, l+"_lk")]
+				if op.Kind != "addlink" && op.Kind != "removelink" && rapid.Bool().Draw(t, l+"_two") {
 					op.Keys = append(op.Keys, other[rapid.IntRange(0, len(other)-1).Draw(t, l+"_key2")])
 				}
 			}
 			return op
 		}
-		stores := []string{"things", "things", "kids", "kids", "targets", "targets", "deps", "holders", "owned"}
+		stores := []string{"things", "things", "kids", "kids", "kids0", "targets", "targets", "deps", "holders", "owned"}
 		store := stores[rapid.IntRange(0, len(stores)-1).Draw(t, l+"_store")]
 		u := kit.EntUniverse{IDs: c06IDs[store], Names: []string{"na", "nb", "nc", "nd", "ne", "nf"}, Notes: []string{"", "note"},
 			Fields: []string{kit.FName, kit.FAlias, kit.FRoles, kit.FRef, kit.FExtra}}
 		switch store {
-		case "things", "kids":
+		case "things", "kids", "kids0":
 			u.Aliases = []*string{nil, kit.Sp("al1"), kit.Sp("al2"), kit.Sp("al3")}
 			u.Roles = []string{"r1", "r2"}
 			u.Refs = refsTo("targets")
@@ -133,6 +136,24 @@ func genC06(t *rapid.T) c06Case {
 		}
 		return kit.GenEntOpM(t, l, store, u, m)
 	})
+	if rapid.IntRange(0, 2).Draw(t, "systemDeleteOfReferenced") == 0 {
+		// a delete of an entity that is still referenced through a restrict wiring, issued from a system context:
+		// elevated contexts lift the system-entity protection, not referential integrity
+		m0 := replayModel(h)
+	search:
+		for _, s := range []string{"things", "targets"} {
+			for _, id := range c06IDs[s] {
+				if _, ok := m0.Ents[s][id]; !ok {
+					continue
+				}
+				refs := m0.Referrers(s, id)
+				if len(refs["holders"]) > 0 || len(refs["things"]) > 0 {
+					h.Txs = append(h.Txs, kit.TxSpec{System: true, Ops: []kit.Op{{Kind: "delete", Store: s, ID: id}}})
+					break search
+				}
+			}
+		}
+	}
 	m := replayModel(h)
 	c := c06Case{H: h}
 	// choose a victim among existing things / targets (fall back to creating one)
@@ -152,7 +173,9 @@ func genC06(t *rapid.T) c06Case {
 	v := cands[rapid.IntRange(0, len(cands)-1).Draw(t, "victim")]
 	c.VictimStore, c.Victim = v[0], v[1]
 	// make the victim deletable: detach restrict-wired referrers (update their ref to null)
-	for store, ids := range m.Referrers(c.VictimStore, c.Victim) {
+	referrers := m.Referrers(c.VictimStore, c.Victim)
+	for _, store := range sortedKeys(referrers) { // sorted: the generator must not depend on map order
+		ids := referrers[store]
 		sc := ""
 		for _, s := range c06Cfg.Stores {
 			if s.Name == store {
